@@ -202,14 +202,14 @@ def tlc(module, cfg, wd, workers=None, timeout=1800, simulate=None, seed=None, e
 
 
 def mc(module, wd, constants=None, invariants=(), properties=(), constraint=None, view=None,
-       deadlock=False, workers=None, timeout=1800, must_cover=(), spec="Spec"):
+       deadlock=False, workers=None, timeout=1800, must_cover=(), spec="Spec", replay_out=None):
     """Bounded exhaustive model checking.  A failure here is a defect of the
     specification (the model does not depend on /repo), hence a tool error."""
     os.makedirs(wd, exist_ok=True)
     cfg = os.path.join(wd, module + ".cfg")
     write_cfg(cfg, spec=spec, constants=constants, invariants=invariants, properties=properties,
               constraint=constraint, view=view, deadlock=deadlock)
-    r = tlc(module, cfg, wd, workers=workers, timeout=timeout)
+    r = tlc(module, cfg, wd, workers=workers, timeout=timeout, replay_out=replay_out)
     if not r["ok"]:
         raise ToolError("model checking %s failed: %s (log %s)" % (module, r["errors"][:3], r["log"]))
     for a in must_cover:
